@@ -15,7 +15,7 @@ class _VS:
         self.inner = {"given": []}
 
 
-def draw(tier, salt, n_quick=64, n_thorough=800, n_values=3):
+def draw(tier, salt, n_quick=80, n_thorough=1000, n_values=3):
     rnd = random.Random(seed() * 7919 + salt)
     n = n_quick if tier == "quick" else n_thorough
     envs, items, owner = [], [], []
@@ -25,15 +25,19 @@ def draw(tier, salt, n_quick=64, n_thorough=800, n_values=3):
         # and one in four from the fixed-roles family (nested dynamic elements, typedefs, odd unions)
         # one in four from the blocks family (partial padding: optionals / arrays / scalars of mixed alignment
         # in the block after a dynamic field)
-        k = len(envs) % 4
+        # one in five from the tails family (a struct ending in an unlimited struct)
+        k = len(envs) % 5
         defs = gen.gen_env_sizers(rnd) if k == 3 else gen.gen_env_roles(rnd) if k == 1 else gen.gen_env_blocks(rnd) if k == 2 \
-            else gen.gen_env(rnd)
+            else gen.gen_env_tails(rnd) if k == 4 else gen.gen_env(rnd)
         env = S.Env(defs)
         if not cppwire.cpp_full_accepts(env):
             continue
         t = S.Ref(len(defs))
-        for _ in range(n_values):
-            value = gen.gen_value(rnd, env, t, max_len=4)
+        values = [gen.gen_value(rnd, env, t, max_len=4) for _ in range(n_values)]
+        if k == 4:
+            # the tails family: the same values with tails of 1, 2, 3, 4 and 7 elements - some of them end aligned
+            values += [v for v in (gen.with_tail_len(rnd, env, t, values[q % n_values], q) for q in (1, 2, 3, 4, 7)) if v is not None]
+        for value in values:
             items.append({"env": defs, "walk": S.value_to_walk(env, t, value), "obsL": [], "obsB": []})
             owner.append(len(envs))
         envs.append(defs)
